@@ -492,6 +492,35 @@ def _blocks_case(mon, rng, it):
                   "block_dtype": str(block_dt), "values_equal": bool(ok_vals), "ndiff": int((got != want).sum()) if got.shape == want.shape else None},
                   key="blocks-values" if not ok_vals else "blocks-dtype", cls=cls, sig=hsig("B", cy, cx, axis, prefix, postfix, str(dt), tuple(sorted(present)), repr(roi), repr(fill), want_dtype),
                   sample=desc2)
+        # ownership: a window handed out is the caller's to edit, and the blocks handed in stay the caller's - neither may show through the other afterwards
+        if blocks and ok_vals and it % 2 == 0:
+            snaps = {k: b.copy() for k, b in blocks.items()}
+            (by, bx) = rng.choice(sorted(blocks))
+            y0, y1, x0, x1 = oy[by], oy[by + 1], ox[bx], ox[bx + 1]
+            wy0 = rng.randint(y0, y1 - 1); wy1 = rng.randint(wy0 + 1, y1); wx0 = rng.randint(x0, x1 - 1); wx1 = rng.randint(wx0 + 1, x1)
+            roi1 = (*[slice(0, n) for n in prefix], slice(wy0, wy1), slice(wx0, wx1), *[slice(0, n) for n in postfix]) if rng.random() < 0.5 else (slice(wy0, wy1), slice(wx0, wx1))
+            if len(roi1) == 2 and a != 0:
+                roi1 = (*[slice(0, n) for n in prefix], slice(wy0, wy1), slice(wx0, wx1), *[slice(0, n) for n in postfix])
+            w1, e1 = call(ba.extract, roi=roi1)
+            if e1 is None:
+                ref1 = w1.copy()
+                try:
+                    if w1.flags.writeable:
+                        w1[...] = 99
+                except Exception:  # noqa: BLE001
+                    pass
+                untouched = all(np.array_equal(blocks[k], snaps[k], equal_nan=True) for k in blocks)
+                w2, e2 = call(ba.extract, roi=roi1)
+                same_again = e2 is None and np.array_equal(w2, ref1, equal_nan=True)
+                # and the other way round: the caller recycles a block buffer after extraction
+                kept = True
+                if e2 is None:
+                    ref2 = w2.copy()
+                    blocks[(by, bx)][...] = 55
+                    kept = bool(np.array_equal(w2, ref2, equal_nan=True))
+                    blocks[(by, bx)][...] = snaps[(by, bx)]
+                mon.check(untouched and same_again and kept, "BlockAssembler.ownership", lambda: {**desc, "window": [wy0, wy1, wx0, wx1], "inside_block": [by, bx], "callers_blocks_untouched_by_editing_the_window": untouched,
+                          "same_window_again_unchanged": bool(same_again), "window_unchanged_when_block_buffer_is_reused": kept}, key="blocks-alias", cls=cls)
         # planes
         if it % 3 == 0:
             yx = None if rng.random() < 0.5 else (rs(shape[a]), rs(shape[a + 1]))
@@ -571,7 +600,7 @@ def run(mon: Monitor, tier: str, seed: int, shard: int, nshards: int) -> None:
     mon.notes["exhaustive_domain"] = {"regular N<=": 24 if quick else 120, "tile<=": 34 if quick else 130, "variable total<=": 6 if quick else 9}
     for pt, n in [("Tiles", 50), ("Tiles.partition", 50), ("Tiles.locate", 50), ("Tiles.crop.partition", 30), ("Tiles.clip_tiles", 30),
                   ("VariableSizedTiles", 30), ("VariableSizedTiles.partition", 30), ("VariableSizedTiles.locate", 30), ("VariableSizedTiles.clip_tiles", 20),
-                  ("GeoboxTiles.getitem", 30), ("GeoboxTiles.crop", 30), ("GeoboxTiles.clip", 30), ("BlockAssembler.extract", 300),
+                  ("GeoboxTiles.getitem", 30), ("GeoboxTiles.crop", 30), ("GeoboxTiles.clip", 30), ("BlockAssembler.extract", 300), ("BlockAssembler.ownership", 100),
                   ("BlockAssembler.planes_yx", 100), ("hooked.partition", 20),
                   ("Tiles|tile>image", 5), ("Tiles|ragged", 10), ("Tiles|1px-tile", 3)]:
         mon.floor(pt, n)
